@@ -44,42 +44,22 @@ func ParseSchema(source string) (*Schema, error) {
 		}
 
 		if cur.IsNext("//") {
-			cur.SkipSpaces()
-			ctype, err := cur.ReadAt(' ')
+			// a comment is the rest of its line; only `// @kind text` lines are annotations,
+			// any other comment is ignored
+			line, err := cur.ReadAt('\n')
 			if err != nil {
-				return nil, fmt.Errorf("read comment type: %w", err)
+				return nil, fmt.Errorf("read comment: %w", err)
 			}
 
-			cur.SkipSpaces()
-
+			ctype, comment := splitFirstWord(line)
 			switch ctype {
 			case "@type":
-				comment, err := cur.ReadAt('\n')
-				if err != nil {
-					return nil, fmt.Errorf("read comment: %w", err)
-				}
-				nextTypeComment = strings.TrimSpace(comment)
+				nextTypeComment = comment
 			case "@enum", "@constructor", "@method":
-				comment, err := cur.ReadAt('\n')
-				if err != nil {
-					return nil, fmt.Errorf("read comment: %w", err)
-				}
-				constructorComment = strings.TrimSpace(comment)
+				constructorComment = comment
 			case "@param":
-				pname, err := cur.ReadAt(' ')
-				if err != nil {
-					return nil, fmt.Errorf("read comment param name: %w", err)
-				}
-
-				cur.SkipSpaces()
-				pcomment, err := cur.ReadAt('\n')
-				if err != nil {
-					return nil, fmt.Errorf("read comment param: %w", err)
-				}
-
-				paramComments[pname] = strings.TrimSpace(pcomment)
-			default:
-				return nil, fmt.Errorf("unknown comment type: %s", ctype)
+				pname, pcomment := splitFirstWord(comment)
+				paramComments[pname] = pcomment
 			}
 
 			cur.Skip(1)
@@ -145,6 +125,16 @@ func ParseSchema(source string) (*Schema, error) {
 		Methods:      methods,
 		TypeComments: typeComments,
 	}, nil
+}
+
+// splitFirstWord returns the first space-separated word of s and the rest, both trimmed.
+func splitFirstWord(s string) (word, rest string) {
+	s = strings.TrimSpace(s)
+	if i := strings.IndexByte(s, ' '); i >= 0 {
+		return s[:i], strings.TrimSpace(s[i+1:])
+	}
+
+	return s, ""
 }
 
 func parseDefinition(cur *Cursor) (def definition, err error) {
